@@ -81,6 +81,11 @@ package scheduler
 //@   at[swapnode] call objects.Node.ReplaceAllocation#1: assert confirmed.nodeID == alloc.nodeID
 //@   at[queue] call objects.Queue.DecAllocatedResource#1: assert arg0 == queue && arg1 == total
 //@   at[preempting] call objects.Queue.DecPreemptingResource#1: assert arg0 == queue && arg1 == totalPreempting
+//@   loop 1: invariant total != nil && total.Resources != nil && (forall i int :: 0 <= i && i < len(released) && released[i] != nil ==> released[i].allocatedResource != total && (released[i].allocatedResource != nil ==> released[i].allocatedResource.Resources != total.Resources))
+//@   loop 1: invariant forall i int :: 0 <= i && i < len(released) && released[i] != nil && released[i].release != nil ==> released[i].release.allocatedResource != total && (released[i].release.allocatedResource != nil ==> released[i].release.allocatedResource.Resources != total.Resources)
+//@   at[nodeexists] call scheduler.PartitionContext.GetNode#1 after: assume ret == nil || !fresh(ret)
+//@   at[swapcredit:C03,C06] call objects.Allocation.IsPreempted#1: assert release.TerminationType == 4 && alloc.release != nil ==> (forall t Key :: clamp64(rv(alloc.release.allocatedResource, t) - rv(alloc.allocatedResource, t)) <= 0 ==> rv(total, t) == clamp64(iter(rv(total, t)) - clamp64(rv(alloc.release.allocatedResource, t) - rv(alloc.allocatedResource, t))))
+//@   at[removecredit:C03,C13] call objects.Allocation.IsPreempted#1: assert !(release.TerminationType == 4 && alloc.release != nil) && iter(node.allocations[alloc.allocationKey]) != nil ==> (forall t Key :: rv(total, t) == clamp64(iter(rv(total, t)) + rv(alloc.allocatedResource, t)))
 
 // ================================================================ C12 / C13 / C03: allocations reported by the RM
 
